@@ -26,3 +26,4 @@ W uint16_t w_fmin(uint16_t a, uint16_t b) { return bits(half_float::fmin(mk(a), 
 W uint16_t w_pow(uint16_t a, uint16_t b) { return bits(half_float::pow(mk(a), mk(b))); }
 W uint16_t w_atan2(uint16_t a, uint16_t b) { return bits(half_float::atan2(mk(a), mk(b))); }
 W uint16_t w_hypot(uint16_t a, uint16_t b) { return bits(half_float::hypot(mk(a), mk(b))); }
+W void w_sincos(uint16_t a, uint16_t* out) { half s, c; half_float::sincos(mk(a), &s, &c); out[0] = bits(s); out[1] = bits(c); }
